@@ -4,6 +4,7 @@ CONSTANTS
   HDR <- W_HDR
   Rank <- W_Rank
   InitH = 1
+  Guide <- W_Guide
   MaxSteps = 8
   AllowCrash = FALSE
   AvoidPanics = FALSE
